@@ -22,6 +22,13 @@ pub fn mk_error() -> crate::error::Error {
 verus! {
 
 // ---- std items without a vstd specification -----------------------------------------------------
+/// `slice.fill(v)`: every element becomes v (std documentation)
+pub assume_specification<T>[ <[T]>::fill ](s: &mut [T], v: T) where T: std::clone::Clone
+    ensures
+        final(s)@.len() == old(s)@.len(),
+        forall|i: int| 0 <= i < old(s)@.len() ==> #[trigger] final(s)@[i] == v,
+;
+
 /// `rotate_right(k)`: element i moves to (i + k) mod len  (std documentation); panics if k > len
 pub assume_specification<T>[ <[T]>::rotate_right ](s: &mut [T], k: usize)
     requires
@@ -142,6 +149,9 @@ pub fn shim_ct_eq(a: &[u8], b: &[u8]) -> (r: u8)
     ensures
         r == 1 <==> a@ == b@,
         r == 0 || r == 1,
+        // consequence of the first clause by extensionality, stated so that callers comparing against an
+        // anonymous `[0u8; N]` need no in-body hint
+        (forall|i: int| 0 <= i < b@.len() ==> b@[i] == 0u8) ==> (r == 1 <==> a@ == crate::verif_spec::zeros(b@.len())),
 {
     use subtle::ConstantTimeEq;
     a.ct_eq(b).unwrap_u8()
@@ -156,6 +166,77 @@ pub fn shim_zeroize(a: &mut [u8])
 {
     use zeroize::Zeroize;
     a.zeroize()
+}
+
+} // verus!
+
+// ---- ChaCha20-IETF (chacha20 crate): ghost view (key, 12-byte nonce, byte position) ------------
+verus! {
+
+#[verifier::reject_recursive_types(R)]
+#[verifier::external_type_specification]
+#[verifier::external_body]
+#[verifier::allow(undeclared_external_trait)]
+pub struct ExChaChaCore<R>(chacha20::ChaChaCore<R>) where R: generic_array::typenum::Unsigned;
+
+pub uninterp spec fn cc_key(c: &chacha20::ChaCha20) -> Seq<u8>;
+
+pub uninterp spec fn cc_nonce(c: &chacha20::ChaCha20) -> Seq<u8>;
+
+pub uninterp spec fn cc_pos(c: &chacha20::ChaCha20) -> int;
+
+/// byte i of the ChaCha20-IETF (RFC 8439, 32-bit block counter starting at 0) keystream for (key, nonce12):
+/// ASSUMED to be what the chacha20 crate computes
+pub uninterp spec fn chacha20_stream(k: Seq<u8>, n: Seq<u8>, i: int) -> u8;
+
+pub open spec fn cc_xor(m: Seq<u8>, k: Seq<u8>, n: Seq<u8>, off: int) -> Seq<u8> {
+    Seq::new(m.len(), |i: int| m[i] ^ chacha20_stream(k, n, off + i))
+}
+
+/// R2 shim for `ChaCha20::new(Key::from_slice(k), Nonce::from_slice(n))`
+#[verifier::external_body]
+pub fn shim_chacha20_new(key: &[u8; 32], nonce: &[u8; 12]) -> (c: chacha20::ChaCha20)
+    ensures
+        cc_key(&c) == key@,
+        cc_nonce(&c) == nonce@,
+        cc_pos(&c) == 0,
+{
+    use chacha20::cipher::KeyIvInit;
+    chacha20::ChaCha20::new(chacha20::Key::from_slice(key), chacha20::Nonce::from_slice(nonce))
+}
+
+/// R2 shim for `cipher.apply_keystream(buf)`
+#[verifier::external_body]
+pub fn shim_chacha20_apply(c: &mut chacha20::ChaCha20, buf: &mut [u8])
+    ensures
+        cc_key(final(c)) == cc_key(old(c)),
+        cc_nonce(final(c)) == cc_nonce(old(c)),
+        cc_pos(final(c)) == cc_pos(old(c)) + old(buf)@.len(),
+        final(buf)@ == cc_xor(old(buf)@, cc_key(old(c)), cc_nonce(old(c)), cc_pos(old(c))),
+{
+    use chacha20::cipher::StreamCipher;
+    c.apply_keystream(buf)
+}
+
+/// R2 shim for `cipher.seek(pos)`
+#[verifier::external_body]
+pub fn shim_chacha20_seek(c: &mut chacha20::ChaCha20, pos: u32)
+    ensures
+        cc_key(final(c)) == cc_key(old(c)),
+        cc_nonce(final(c)) == cc_nonce(old(c)),
+        cc_pos(final(c)) == pos,
+{
+    use chacha20::cipher::StreamCipherSeek;
+    c.seek(pos)
+}
+
+/// R2 shim for `x.to_le_bytes()` on usize (64-bit target): the 8 little-endian bytes of x
+#[verifier::external_body]
+pub fn shim_usize_to_le_bytes(x: usize) -> (r: [u8; 8])
+    ensures
+        r@ == crate::verif_spec::nat_to_le(x as nat, 8),
+{
+    x.to_le_bytes()
 }
 
 } // verus!
